@@ -750,11 +750,22 @@ fn scenario_close() -> Option<Finding> {
 /// C12: alter bytes of a closed database file; check_integrity() must report the damage
 /// (Ok(false) or Err) unless the contents served afterwards are exactly one commit point.
 fn scenario_alter() -> Option<Finding> {
+    alter_with(false)
+}
+
+/// as `alter`, on a database whose data tree has branch pages (one commit of 300 x 900-byte
+/// values): a few positions in EVERY leaf and branch page, so that damage under any child of a
+/// branch - the last one included - must be reported
+fn scenario_alter_tree() -> Option<Finding> {
+    alter_with(true)
+}
+
+fn alter_with(tree: bool) -> Option<Finding> {
     let be = Rec::default();
     let mut points: Vec<Snapshot> = vec![(BTreeMap::new(), BTreeMap::new())];
     {
         let db = Database::builder().create_with_backend(be.clone()).ok()?;
-        for (i, (mode, big)) in [(Mode::OnePhase, false), (Mode::TwoPhase, false), (Mode::OnePhase, false)].iter().enumerate() {
+        for (i, (mode, big)) in [(Mode::OnePhase, false), (Mode::TwoPhase, tree), (Mode::OnePhase, false)].iter().enumerate() {
             do_commit(&db, i as u64 + 1, *mode, *big).ok()?;
             points.push(snapshot(&db).ok()?);
         }
@@ -762,17 +773,23 @@ fn scenario_alter() -> Option<Finding> {
     let img = be.st.lock().unwrap().live.clone();
     let page = 4096usize;
     // positions: every byte of the 320-byte header, and the first 96 bytes + a stride of every page
-    let mut positions: Vec<usize> = (0..320).collect();
+    let mut positions: Vec<usize> = if tree { Vec::new() } else { (0..320).collect() };
     let mut p = page;
     while p < img.len() {
         if img[p] == 1 || img[p] == 2 {
-            for o in 0..96 {
-                positions.push(p + o);
-            }
-            let mut o = 96;
-            while o < page {
-                positions.push(p + o);
-                o += 37;
+            if tree {
+                for o in [4usize, 9, 41, 1000, 2000, 3000] {
+                    positions.push(p + o);
+                }
+            } else {
+                for o in 0..96 {
+                    positions.push(p + o);
+                }
+                let mut o = 96;
+                while o < page {
+                    positions.push(p + o);
+                    o += 37;
+                }
             }
         }
         p += page;
@@ -780,6 +797,9 @@ fn scenario_alter() -> Option<Finding> {
     let static_counter = AtomicU64::new(0);
     for &pos in &positions {
         for delta in [0x01u8, 0x80, 0xFF] {
+            if tree && delta != 0x01 {
+                continue;
+            }
             let mut alt = img.clone();
             let old = alt[pos];
             alt[pos] = if delta == 0xFF { !old } else { old ^ delta };
@@ -845,6 +865,7 @@ fn main() {
         "fault" => scenario_fault(),
         "close" => scenario_close(),
         "alter" => scenario_alter(),
+        "alter_tree" => scenario_alter_tree(),
         _ => {
             eprintln!("unknown scenario");
             std::process::exit(2);
